@@ -17,7 +17,8 @@ def c05():
               "write, optionally one send held between the state test and the write; relaxed oracle: failure => never ran, never twice). Also: pool "
               "settings flags (BIND2CPU, CLOEXEC), one send whose argument is the callback's own address, self-sends issued after the thread's stop "
               "message, the async-operation helpers (allocate on one thread or outside, complete on another), other event sources (timer, readable pipe) registered "
-              "on the virtual thread competing with a message for it, and a late burst whose tp_shutdown() is issued by the held thread itself. Non-trivial: >=2 senders interleave on one "
+              "on the virtual thread competing with a message for it, a late burst whose tp_shutdown() is issued by the held thread itself, and a message handler that issues a "
+              "SYNC|SELF_SKIP broadcast in the middle of its batch (first burst message of a released thread). Non-trivial: >=2 senders interleave on one "
               "destination, or a fault/queue-full/failed send occurred, or a direct-call path was taken, or the virtual thread was a destination "
               "with >=2 threads, or a late burst / shutdown race ran. distinct = distinct scenario fingerprints."),
         assumptions=["for sends racing with tp_shutdown() 'accepted => delivered' is not asserted (known finding c05_send_accepted_after_last_queue_look_is_lost)",
